@@ -85,6 +85,9 @@ func (sim) Generate(prop, tier string, seed uint64) *core.Plan {
 		p.Cfg[fmt.Sprintf("stored%d", m)] = int64(stored)
 		p.Cfg[fmt.Sprintf("init%d", m)] = int64(r.Range(0, 6))
 	}
+	if r.Chance(1, 2) {
+		p.Cfg["shared_table"] = 1
+	}
 	if r.Chance(1, 5) {
 		p.Cfg["real"] = 1
 		p.Cfg["real_raise"] = int64(r.Range(1, 3))
